@@ -921,11 +921,11 @@ class Check:
                                      detail=detail, key=key,
                                      line=self._line(construct) if isinstance(construct, ast.AST) else None))
 
-    def require(self, cond, rule, where, construct, ok="", bad="", sink=None):
+    def require(self, cond, rule, where, construct, ok="", bad="", sink=None, positive=False):
         if cond:
             self.holds(rule, where, construct, ok)
         else:
-            self.violation(rule, where, construct, bad or ok, sink=sink)
+            self.violation(rule, where, construct, bad or ok, sink=sink, positive=positive)
         return cond
 
     def error(self, rule, msg):
